@@ -82,10 +82,12 @@ type Ctx struct {
 	Funs   map[string]string // uninterpreted function decls name -> decl text
 	True   *Term
 	False  *Term
+	varIdx  map[int]int      // var term ID -> index
+	varSets map[int]*big.Int // memo: term ID -> set of variable indices
 }
 
 func NewCtx() *Ctx {
-	c := &Ctx{tab: map[string]*Term{}, Funs: map[string]string{}}
+	c := &Ctx{tab: map[string]*Term{}, Funs: map[string]string{}, varIdx: map[int]int{}, varSets: map[int]*big.Int{}}
 	c.True = c.mk(&Term{Op: OpConst, W: 0, Val: 1})
 	c.False = c.mk(&Term{Op: OpConst, W: 0, Val: 0})
 	return c
@@ -125,9 +127,34 @@ func (c *Ctx) mk(t *Term) *Term {
 	t.KZ = knownZero(t)
 	c.tab[k] = t
 	if t.Op == OpVar {
+		c.varIdx[t.ID] = len(c.Vars)
 		c.Vars = append(c.Vars, t)
 	}
 	return t
+}
+
+// VarSet returns the set of variables (and uninterpreted applications, conservatively as one shared pseudo-variable)
+// occurring in t.
+func (c *Ctx) VarSet(t *Term) *big.Int {
+	if s, ok := c.varSets[t.ID]; ok {
+		return s
+	}
+	s := new(big.Int)
+	switch t.Op {
+	case OpVar:
+		s.SetBit(s, c.varIdx[t.ID]+1, 1)
+	case OpApp, OpRaw:
+		s.SetBit(s, 0, 1)
+		for _, a := range t.Args {
+			s.Or(s, c.VarSet(a))
+		}
+	default:
+		for _, a := range t.Args {
+			s.Or(s, c.VarSet(a))
+		}
+	}
+	c.varSets[t.ID] = s
+	return s
 }
 
 // knownZero computes a mask of bits that are zero for every value of the term's variables.
@@ -142,7 +169,20 @@ func knownZero(t *Term) uint64 {
 	case OpAnd:
 		return (t.Args[0].KZ | t.Args[1].KZ) & m
 	case OpOr, OpXor:
-		return t.Args[0].KZ & t.Args[1].KZ & m
+		kz := t.Args[0].KZ & t.Args[1].KZ
+		if t.Op == OpXor {
+			// X ^ (K & replicate(bit k of X)) with bit k of K set clears bit k
+			for i := 0; i < 2; i++ {
+				x, y := t.Args[i], t.Args[1-i]
+				if y.Op == OpAnd && y.Args[1].IsConst() && y.Args[1].Big == nil && y.Args[0].Op == OpSExt {
+					e := y.Args[0].Args[0]
+					if e.Op == OpExtract && e.W == 1 && e.Args[0] == x && y.Args[1].Val>>uint(e.Lo)&1 == 1 {
+						kz |= uint64(1) << uint(e.Lo)
+					}
+				}
+			}
+		}
+		return kz & m
 	case OpConcat:
 		var kz uint64
 		for _, a := range t.Args {
@@ -943,7 +983,33 @@ func (c *Ctx) Ite(cond, a, b *Term) *Term {
 			return c.Not(cond)
 		}
 	}
+	// conditional xor with a constant: ite(c, x^K, x) = x ^ (K & replicate(c)). Keeps CRC-style loops free of
+	// if-then-else towers (which blow up the SMT solver's rewriter) and in one canonical XOR/AND form.
+	if a.W >= 2 && a.W <= 64 {
+		if a.Op == OpXor && a.Args[0] == b && a.Args[1].IsConst() {
+			return c.Xor(b, c.And(a.Args[1], c.SExt(c.BoolToBit(cond), a.W-1)))
+		}
+		if b.Op == OpXor && b.Args[0] == a && b.Args[1].IsConst() {
+			return c.Xor(a, c.And(b.Args[1], c.SExt(c.BoolToBit(c.Not(cond)), a.W-1)))
+		}
+	}
 	return c.mk(&Term{Op: OpIte, W: a.W, Args: []*Term{cond, a, b}})
+}
+
+// BoolToBit converts a Boolean to a 1-bit vector; single-bit tests become the tested bit itself.
+func (c *Ctx) BoolToBit(cond *Term) *Term {
+	if cond.IsConst() {
+		return c.BV(cond.Val, 1)
+	}
+	if k, x, ok := singleBitTest(cond); ok && x.W <= 64 {
+		return c.Extract(x, k, k)
+	}
+	if cond.Op == OpBNot {
+		if k, x, ok := singleBitTest(cond.Args[0]); ok && x.W <= 64 {
+			return c.BVNot(c.Extract(x, k, k))
+		}
+	}
+	return c.mk(&Term{Op: OpIte, W: 1, Args: []*Term{cond, c.BV(1, 1), c.BV(0, 1)}})
 }
 
 func (c *Ctx) Eq(a, b *Term) *Term {
